@@ -379,3 +379,39 @@ Fixpoint no_empty_range_from (db : btdb) (fuel : nat) : bool :=
            end
   end.
 Definition no_empty_range (db : btdb) : bool := no_empty_range_from db (S (length db)).
+
+(* ------------------------------------------------------------------------------------------ *)
+(* statedifflength: where a (resumed) backfill starts and what it does.                         *)
+(*   migration/statedifflength/migrator.go: startBlock = max(checkpoint, oldest retained block) *)
+(*   (pruner.OldestRetainedBlock = first key of the block-commitments bucket); backfillBlock    *)
+(*   fails with "key not found" on a block whose commitments / state update were pruned.        *)
+(* ------------------------------------------------------------------------------------------ *)
+Record sblock := { s_len : N;      (* StateUpdate.StateDiff.Length() *)
+                   s_sdl : N }.    (* BlockCommitments.StateDiffLength as stored *)
+Definition sdb := list (option sblock).     (* block n = n-th element; None = pruned *)
+
+Definition is_some {A} (o : option A) : bool := match o with Some _ => true | None => false end.
+Definition oldest_retained (db : sdb) : option nat := find_index is_some db.
+Definition sdl_start (checkpoint : nat) (db : sdb) : option nat :=
+  option_map (Nat.max checkpoint) (oldest_retained db).
+
+Definition fill (b : sblock) : sblock := {| s_len := s_len b; s_sdl := s_len b |}.
+Fixpoint backfill (l : sdb) : option sdb :=
+  match l with
+  | [] => Some []
+  | None :: _ => None                                 (* getting commitments: key not found *)
+  | Some b :: r => option_map (cons (Some (fill b))) (backfill r)
+  end.
+Definition backfill_from (db : sdb) (n : nat) : option sdb :=
+  option_map (app (firstn n db)) (backfill (skipn n db)).
+
+(* one uninterrupted Migrate with the checkpoint restored by Before (0 = none) *)
+Definition sdl_migrate (checkpoint : nat) (db : sdb) : option sdb :=
+  match sdl_start checkpoint db with
+  | None => None
+  | Some s => backfill_from db s
+  end.
+
+Definition filled (b : sblock) : bool := N.eqb (s_sdl b) (s_len b).
+Definition sdl_done (db : sdb) : bool :=
+  forallb (fun o => match o with None => true | Some b => filled b end) db.
